@@ -24,6 +24,7 @@ type Spec struct {
 	Out       string     `json:"out"`
 	Replay    *Replay    `json:"replay,omitempty"`
 	Replays   []Replay   `json:"replays,omitempty"` // batch of candidates (minimiser)
+	Repeat    int        `json:"repeat,omitempty"`  // replay: repeat the run up to N times until a violation shows (code under test with its own nondeterminism)
 	MaxWallS  float64    `json:"max_wall_s,omitempty"`
 	KeepTrace bool       `json:"keep_trace,omitempty"`
 	Known     []KnownSig `json:"known,omitempty"` // recorded findings: reported once, never stop the search
@@ -42,6 +43,7 @@ type Replay struct {
 
 type RunViolation struct {
 	Run       int              `json:"run"`
+	ChunkFrom int              `json:"chunk_from"`
 	RunSeed   uint64           `json:"run_seed"`
 	Violation engine.Violation `json:"violation"`
 	Plan      *engine.Plan     `json:"plan"`
@@ -190,7 +192,7 @@ func TestWorker(t *testing.T) {
 				}
 			}
 			if len(res.Violations) < 40 {
-				res.Violations = append(res.Violations, RunViolation{Run: idx, RunSeed: plan.Seed, Violation: v, Plan: plan, Schedule: out.Schedule, Hash: out.Hash, Trace: out.Hist.Trace(600), Known: known})
+				res.Violations = append(res.Violations, RunViolation{Run: idx, ChunkFrom: spec.From, RunSeed: plan.Seed, Violation: v, Plan: plan, Schedule: out.Schedule, Hash: out.Hash, Trace: out.Hist.Trace(600), Known: known})
 			}
 		}
 	}
@@ -218,6 +220,10 @@ func TestWorker(t *testing.T) {
 	}
 	if spec.Replay != nil {
 		one(-1, spec.Replay.Plan, spec.Replay.Schedule)
+		for i := 1; i < spec.Repeat && len(res.Violations) == 0; i++ {
+			one(-1, spec.Replay.Plan, spec.Replay.Schedule)
+		}
+		res.Probes["replay-repetitions"] = res.Runs
 		res.WallS = time.Since(start).Seconds()
 		return
 	}
